@@ -2,16 +2,26 @@
    it binds variables only to terms of the dataset. *)
 Require Import KV.Update.Spec KV.Update.Model KV.Update.Bgp KV.Update.SetProofs.
 
-Definition sol_closed (D : dataset) (sol : solution) : Prop := forall v t, lookup v sol = Some t -> term_in_dataset t D.
+Definition sol_closed (D : dataset) (sol : solution) : Prop :=
+  forall v t a, lookup v sol = Some t -> In a (atoms t) -> term_in_dataset a D.
+(* every dictionary entry of t is one of the dataset *)
+Definition sub_of (D : dataset) (t : term) : Prop := forall a, In a (atoms t) -> term_in_dataset a D.
 
 Lemma match_pt_closed : forall D pt t sol sol',
-  sol_closed D sol -> term_in_dataset t D -> match_pt pt t sol = Some sol' -> sol_closed D sol'.
+  sol_closed D sol -> sub_of D t -> match_pt pt t sol = Some sol' -> sol_closed D sol'.
 Proof.
-  intros D [v|c] t sol sol' Hc Ht H; simpl in H.
+  intros D; induction pt as [v|c|pa IHa pb IHb pc IHc]; intros t sol sol' Hc Ht H; simpl in H.
   - destruct (lookup v sol) as [t'|] eqn:E.
     + destruct (term_eqb t' t); inversion H; subst; auto.
-    + inversion H; subst. intros v0 t0 Hl. simpl in Hl. destruct (N.eqb v0 v); [inversion Hl; subst; auto | eauto].
+    + inversion H; subst. intros v0 t0 a Hl Ha. simpl in Hl. destruct (N.eqb v0 v); [inversion Hl; subst; auto | eauto].
   - destruct (term_eqb c t); inversion H; subst; auto.
+  - destruct t as [x|x|k l|s p o]; try discriminate.
+    assert (Hs : sub_of D s) by (intros a Ha; apply Ht; simpl; apply in_app_iff; auto).
+    assert (Hp : sub_of D p) by (intros a Ha; apply Ht; simpl; apply in_app_iff; right; apply in_app_iff; auto).
+    assert (Ho : sub_of D o) by (intros a Ha; apply Ht; simpl; apply in_app_iff; right; apply in_app_iff; auto).
+    destruct (match_pt pa s sol) as [s1|] eqn:E1; [|discriminate].
+    destruct (match_pt pb p s1) as [s2|] eqn:E2; [|discriminate].
+    eapply IHc; [| |exact H]; auto. eapply IHb; [| |exact E2]; auto. eapply IHa; [| |exact E1]; auto.
 Qed.
 
 Lemma match_tp_closed : forall D tp q sol sol',
@@ -20,8 +30,8 @@ Proof.
   intros D tp q sol sol' Hc Hq H. unfold match_tp in H.
   destruct (match_pt (fst (fst tp)) (qs q) sol) as [s1|] eqn:E1; [|discriminate].
   destruct (match_pt (snd (fst tp)) (qp q) s1) as [s2|] eqn:E2; [|discriminate].
-  assert (T : forall t, (qs q = t \/ qp q = t \/ qo q = t \/ qg q = Some t) -> term_in_dataset t D)
-    by (intros t Ht; right; exists q; auto).
+  assert (T : forall t, (qs q = t \/ qp q = t \/ qo q = t \/ qg q = Some t) -> sub_of D t)
+    by (intros t Ht a Ha; exists t; split; [right; exists q; auto | exact Ha]).
   eapply match_pt_closed; [| |exact H]; [|apply T; auto].
   eapply match_pt_closed; [| |exact E2]; [|apply T; auto].
   eapply match_pt_closed; [| |exact E1]; [auto|apply T; auto].
@@ -47,9 +57,9 @@ Qed.
 Lemma in_graph_sub : forall g D q, In q (in_graph g D) -> In q (dq D).
 Proof. intros g D q H. unfold in_graph in H. apply filter_In in H. tauto. Qed.
 
-Lemma named_graph_term : forall D g, In g (named_graphs D) -> term_in_dataset g D.
+Lemma named_graph_term : forall D g, In g (named_graphs D) -> sub_of D g.
 Proof.
-  intros D g H. unfold named_graphs, tunion in H. apply (In_union term_eqb term_eqb_spec) in H.
+  intros D g H a Ha. exists g. split; [|exact Ha]. unfold named_graphs, tunion in H. apply (In_union term_eqb term_eqb_spec) in H.
   destruct H as [H|H]; [left; auto|]. unfold graph_names in H. apply in_flat_map in H. destruct H as [q [Hq Hg]].
   destruct (qg q) as [g'|] eqn:E; simpl in Hg; [|tauto]. destruct Hg as [<-|[]]. right; exists q; auto.
 Qed.
@@ -67,14 +77,15 @@ Proof.
     eapply Forall_forall in X; eauto.
 Qed.
 
-Theorem eval_gwhere_closed : forall w D sol v t,
-  In sol (eval_gwhere w D) -> lookup v sol = Some t -> term_in_dataset t D \/ In t (gwhere_terms w).
+Theorem eval_gwhere_closed : forall w D sol v t a,
+  In sol (eval_gwhere w D) -> lookup v sol = Some t -> In a (atoms t) ->
+  term_in_dataset a D \/ exists c, In c (gwhere_terms w) /\ In a (atoms c).
 Proof.
-  intros w D sol v t Hin Hl. left. unfold eval_gwhere in Hin. apply in_flat_map in Hin. destruct Hin as [bs [_ Hin]].
+  intros w D sol v t a Hin Hl Hat. left. unfold eval_gwhere in Hin. apply in_flat_map in Hin. destruct Hin as [bs [_ Hin]].
   assert (G : forall bs0 sols, Forall (sol_closed D) sols -> Forall (sol_closed D) (fold_left (eval_block D) bs0 sols)).
   { induction bs0 as [|b r IH]; intros sols Hs; simpl; auto. apply IH. apply eval_block_closed; auto. }
   assert (X : Forall (sol_closed D) (eval_join D bs)).
-  { apply G. constructor; [|constructor]. intros v0 t0 H0; discriminate. }
+  { apply G. constructor; [|constructor]. intros v0 t0 a0 H0; discriminate. }
   eapply Forall_forall in X; eauto.
 Qed.
 
@@ -89,6 +100,6 @@ Proof.
   split; [reflexivity|]. split.
   - split; [constructor|]. split.
     + intros q g [].
-    + intros t [[]|[q [[] _]]].
+    + intros t [u0 [[[]|[q [[] _]]] _]].
   - intros bn. vm_compute. discriminate.
 Qed.
